@@ -1,5 +1,5 @@
 """Intra-procedural provenance helpers (R-FLOW): where does the value of an expression come from?"""
-from .paths import unique_init, local_writes, var_decl
+from .paths import unique_init, local_writes, var_decl, _result_written
 
 DEREF_METHODS = ('::value', '::operator*', '::operator->', '::get', '::c_str', '::data', '::str', '::string')
 
@@ -106,3 +106,38 @@ def value_sources(fn, node, limit=400):
                     stack.append(site)
         stack.extend(fn.kids(i))
     return seen
+
+
+def field_accesses(fn):
+    """[(node id of MemberExpr on a field, qualified field name, is_write)] for every field access in fn.
+    A write is an assignment / compound assignment / ++ / -- / address-of / binding to a mutable
+    reference / mutating member call (push_back, erase, operator[] on a map, …) on the field or on an
+    element reached through it."""
+    cache = getattr(fn, '_fa', None)
+    if cache is not None:
+        return cache
+    out = []
+    pm = fn.parent_map()
+    for i, nd in enumerate(fn.nodes):
+        if nd['k'] == 'CtorInit' and 'm' in nd:
+            out.append((i, nd['m'], True))
+            continue
+        if nd['k'] != 'MemberExpr' or nd.get('mk') != 'Field':
+            continue
+        w = _result_written(fn, i, pm)
+        if not w:
+            # map::operator[] inserts a default element even when only read
+            p = pm.get(i)
+            while p is not None and fn.nodes[p]['k'] in ('ParenExpr', 'ImplicitCastExpr'):
+                p = pm.get(p)
+            if p is not None and fn.nodes[p]['k'] == 'CXXOperatorCallExpr' and fn.nodes[p].get('op') == '[]':
+                c = fn.nodes[p].get('callee', '')
+                if ('map<' in c) and not fn.nodes[p].get('cconst'):
+                    w = True
+        out.append((i, nd['m'], w))
+    fn._fa = out
+    return out
+
+
+def field_writes(fn, field=None):
+    return [(i, m) for i, m, w in field_accesses(fn) if w and (field is None or m == field)]
